@@ -14,7 +14,8 @@ import (
 //
 // Sends respect the capacity: a send succeeds when the buffer has room, or, on an unbuffered channel, when a
 // receiver is blocked on that channel (rendezvous). A send that would block its goroutine cannot be suspended
-// in this model and ends the path as INCONCLUSIVE (never silently accepted).
+// in this model and ends the path as INCONCLUSIVE (never silently accepted). A receive on an empty channel when
+// no goroutine is left to run is a deadlock and is reported like an escaping panic.
 
 type chanState struct {
 	recvWait map[*ChanObj]int
@@ -77,7 +78,15 @@ func (it *Interp) chanRecvModel(ch Value, commaOk bool) Value {
 		st.recvWait[c]--
 	}
 	if len(c.Buf) == 0 {
-		it.abort("receive on empty channel would block forever (no runnable goroutine)")
+		// nobody can ever send: every other goroutine has finished or is blocked below this one. If a receiver
+		// further down the (nested) stack could meanwhile proceed, the stack discipline of this model, not the
+		// program, is stuck: inconclusive. Otherwise the program deadlocks here.
+		for oc, n := range it.chanSt().recvWait {
+			if n > 0 && oc != c && len(oc.Buf) > 0 {
+				it.abort("receive on empty channel: blocked behind a suspended receiver that could proceed (not modelled)")
+			}
+		}
+		it.goPanicStr("deadlock", "all goroutines are asleep - deadlock (receive on an empty channel, no goroutine left to send)")
 	}
 	v := c.Buf[0]
 	c.Buf = c.Buf[1:]
